@@ -223,6 +223,28 @@ func (k *Key) PGPEntity() *openpgp.Entity {
 		Identities: map[string]*openpgp.Identity{},
 	}
 	// somehow initialize the proper fields with identity, self-signature ...
+	if k.private == nil {
+		// Public key only (as read from git): such an entity can only be used to verify signatures.
+		// We can't self-sign an identity without the private key, so we attach one with an unsigned
+		// self-signature that only declares what the key can be used for.
+		uid := packet.NewUserId("name", "", "")
+		isPrimary := true
+		e.Identities[uid.Id] = &openpgp.Identity{
+			Name:   uid.Id,
+			UserId: uid,
+			SelfSignature: &packet.Signature{
+				SigType:      packet.SigTypePositiveCert,
+				PubKeyAlgo:   k.public.PubKeyAlgo,
+				CreationTime: k.public.CreationTime,
+				IssuerKeyId:  &k.public.KeyId,
+				IsPrimaryId:  &isPrimary,
+				FlagsValid:   true,
+				FlagCertify:  true,
+				FlagSign:     true,
+			},
+		}
+		return e
+	}
 	err := e.AddUserId("name", "", "", nil)
 	if err != nil {
 		panic(err)
